@@ -18,6 +18,7 @@ package bpmn
 
 import (
 	"context"
+	"math"
 	"strings"
 	"sync"
 	"sync/atomic"
@@ -519,6 +520,11 @@ func FetchTaskDataInput(locator data.IFlowDataLocator, element schema.BaseElemen
 					if field.Ref != "" {
 						vv, ok := locatorJSONGet(locator, field.Ref)
 						if ok {
+							// a JSON number is handed back as a float64, which an
+							// item declared as integer does not take
+							if f, isFloat := vv.(float64); isFloat && value.ItemType == schema.ItemTypeInteger && f == math.Trunc(f) {
+								vv = int64(f)
+							}
 							value.ValueFrom(vv)
 						}
 					} else {
